@@ -84,6 +84,7 @@ def run(an: Analysis, rep):
                         config=vname(V))
     rep.stats.update(an.stats(interps))
     rep.run(r053, an, rep)
+    rep.run(r05i, an, rep)
     from .common import SharedRules
     from . import c03
     from . import c02, c10
@@ -116,6 +117,39 @@ class _O(dict):
 
 def _Fn(**kw):
     return _O("Function", **kw)
+
+
+def r05i(an, rep):
+    """CPython (3.8+) shares equal constants: a tuple constant nested in another one, or used by two code objects of a module, is ONE object, and
+    `is` on such constants is observable.  The decoded data holds those very objects; what the encoder hands to CodeType must be them or copies
+    memoised by identity (`id(value)`), and normalize must not rebuild constant tuples - else the shared object is split up."""
+    rep.rule("R05.I", "constant objects shared in the original are shared in the re-encoded code (no copy of a constant without an identity memo)", 1)
+    it, _ = an.interp("to_code")
+    n = 0
+    for f in an.closure("to_code"):
+        if not f.params:
+            continue
+        p = f.params[0]
+        for st in ast.walk(f.node):
+            if not (isinstance(st, ast.If) and isinstance(st.test, ast.Call) and isinstance(st.test.func, ast.Name) and st.test.func.id == "isinstance"
+                    and len(st.test.args) == 2 and isinstance(st.test.args[0], ast.Name) and st.test.args[0].id == p and "tuple" in norm_src(st.test.args[1])):
+                continue
+            rets = [r for b in st.body for r in ast.walk(b) if isinstance(r, ast.Return) and r.value is not None]
+            copies = [r for r in rets if isinstance(r.value, ast.Call)
+                      and ((isinstance(r.value.func, ast.Name) and r.value.func.id in ("tuple", "frozenset")) or norm_src(r.value.func).startswith("type("))
+                      and any(isinstance(x, ast.Name) and x.id == f.name for x in ast.walk(r.value))]
+            if not copies:
+                continue
+            n += 1
+            memo = any(isinstance(c, ast.Call) and isinstance(c.func, ast.Name) and c.func.id == "id" and c.args and isinstance(c.args[0], ast.Name) and c.args[0].id == p
+                       for c in ast.walk(f.node))
+            rep.add("R05.I", f"{f.qual}::copies of constant tuples keep the sharing of the original", memo, loc(f.module, copies[0]),
+                    f"the copy is looked up / stored under id({p}): one copy per original object" if memo else
+                    f"`{norm_src(copies[0])[:70]}` makes a fresh copy of a constant tuple every time it is met (and normalize rebuilds constant tuples with `tuple(map(normalize, x))`): CPython >= 3.8 "
+                    f"shares equal constants inside one module, so after normalize().to_code() `a = ((1000, 2000), 3); b = (1000, 2000); a[0] is b` and "
+                    f"`def f(x=(1000, 2000)): y = (1000, 2000); return x is y` change from True to False - executing both does not give the same results")
+    if n == 0:
+        rep.add("R05.I", "constants are handed to CodeType as decoded", True, "code_data/_constants.py", "the encoder makes no copies of constant tuples (C12's R12.8 decides whether that is safe)", nontrivial=False)
 
 
 def r053(an, rep):
